@@ -91,6 +91,20 @@ def graphql_error_from_nodes(
     )
 
 
+def _exception_message(exception: Exception) -> str:
+    """
+    Returns the message of an exception, even if its `__str__` method raises.
+    :param exception: exception from which to extract the message
+    :type exception: Exception
+    :return: the message of the exception
+    :rtype: str
+    """
+    try:
+        return str(exception)
+    except Exception:  # pylint: disable=broad-except
+        return exception.__class__.__name__
+
+
 def located_error(
     original_error: Exception,
     nodes: List["Node"],
@@ -127,7 +141,7 @@ def located_error(
             exception
             if is_coercible_exception(exception)
             else graphql_error_from_nodes(
-                str(exception),
+                _exception_message(exception),
                 nodes=nodes,
                 path=path,
                 original_error=exception,
